@@ -1435,6 +1435,10 @@ def gen_sessions(rng, n_per_fmt):
             out.append({"k": "session", "fmt": fmt, "meshes": ms, "cfg": gen_cfg(rng) if rng.random() < 0.3 else {},
                         "forms": [rng.randrange(30) for _ in range(12)], "warm": rng.random() < 0.5,
                         "upper": rng.choice([None, None, None, "first", "second"])})
+    # regression (f43b1a3): a tetrahedral mesh saved under the upper-case spelling of the geogram extension, on every run
+    tets = [gen_mesh(rng, "tet") for _ in range(2)]
+    out.append({"k": "session", "fmt": "geogram_ascii", "meshes": [{k: m[k] for k in ("V", "E", "F", "C")} for m in tets], "cfg": {},
+                "forms": [rng.randrange(30) for _ in range(12)], "warm": False, "upper": "first"})
     return out
 
 
